@@ -1,7 +1,7 @@
 (* Correspondence for C14: a case is a history of API calls on one derived value together with what the real
    code showed after every call; the model is stepped in lockstep and every observation compared. *)
 From Coq Require Import ZArith NArith List Bool.
-From Verif.C14_Derived Require Import Model.
+From Verif.C14_Derived Require Import Model ModelDVI.
 Import ListNotations.
 
 Fixpoint list_eqb {A} (eqb : A -> A -> bool) (a b : list A) : bool :=
@@ -20,7 +20,11 @@ Inductive case :=
 | CCT (c : CT.cond) (ins0 : list Z) (h : list CT.op) (o : list Z)
 | CSS (tb : bool) (h : list SS.op) (o : list (list N * list N * N * N))
 | CEV (h : list EV.op) (o : list (N * list bool))
-| CWG (h : list WG.op) (o : list (list N * bool)).
+| CWG (h : list WG.op) (o : list (list N * bool))
+(* a forced schedule of writers on the two inputs of a DerivedVariable2 (+ inheriting variable): the harness held the
+   writers at callback boundaries, the schedule lists the model steps in the order the real code was made to take
+   them; o = (input1, input2, derived, inheriting) after all writers returned *)
+| CDVI (f : DV.fn) (a b : Z) (progs : list (list (bool * Z))) (sched : list nat) (o : Z * Z * Z * Z).
 
 Definition zz_eqb (a b : Z * Z) := Z.eqb (fst a) (fst b) && Z.eqb (snd a) (snd b).
 Definition sn_eqb (a b : list (list N) * list N * option (list N)) :=
@@ -40,6 +44,11 @@ Definition agree (c : case) : bool :=
   | CSS tb h o => list_eqb ss_eqb (SS.trace (SS.init tb) h) o
   | CEV h o => list_eqb ev_eqb (EV.trace EV.init h) o
   | CWG h o => list_eqb wg_eqb (WG.trace WG.init h) o
+  | CDVI f a b progs sched o =>
+      let g := fun x y => DV.apply_fn f 0 [x; y] in
+      let s := DVI.run false g (DVI.init g a b progs) sched in
+      let '(o1, o2, od, ot) := o in
+      DVI.quiescent s && Z.eqb (DVI.in1 s) o1 && Z.eqb (DVI.in2 s) o2 && Z.eqb (DVI.d s) od && Z.eqb (DVI.t s) ot
   end.
 
 Fixpoint mismatches_from (i : nat) (cs : list case) : list nat :=
